@@ -435,7 +435,7 @@ Print Assumptions c11_assert_reachable_outside_discipline.
     about the code as it is now; hoisting the clearing of the flag, widening the go-ahead test or dropping the close reason changes
     Gen2.v and this equality no longer holds.  Trusted: the translator. *)
 From Hoot Require Import GenLib Gen2.
-From Hoot.proofs Require Import Gen2_equiv_flow.
+From Hoot.proofs Require Import Gen2_equiv_flow_try100 Gen2_equiv_flow_new Gen2_equiv_flow_response.
 Theorem c11_code_try_read_100 : forall f input,
   let g := gen_try_read_100 (i_reasons f) (i_should_send_body f) (i_await_100 f) (parsed_of (try_parse_response 0 input)) in
   match try_read_100 f input with
